@@ -22,7 +22,7 @@ RULE = ("pairs of YAML documents (root mapping or sequence, one nested sequence)
         "least one anchor name present in both documents.")
 
 NAMES = ["x", "y", "x_1"]
-VALUES = ["1", "2", "1.0", "true", "a"]
+VALUES = ["1", "2", "1.0", "true", "a", "!t a", "!u a", "!t b"]
 MODES = ["stop", "left", "right", "rename"]
 
 
@@ -101,6 +101,24 @@ def all_docs(nslots):
 
 # --------------------------------------------------------------------------- canonical forms
 
+def is_tagged(v):
+    return type(v).__name__ == "TaggedScalar"
+
+
+def vj(v):
+    """Value of a scalar node as model JSON; a tagged scalar is opaque text `<tag> <value>`."""
+    if is_tagged(v):
+        return {"k": "opaque", "v": "%s %s" % (v.tag.value, v.value)}
+    return codec.scalar_to_json(v)
+
+
+def veq(a, b):
+    """Equality of two anchored values as the property means it (tagged: same tag and value)."""
+    if is_tagged(a) or is_tagged(b):
+        return is_tagged(a) and is_tagged(b) and a.tag.value == b.tag.value and a.value == b.value
+    return a == b
+
+
 def adoc(node, ids):
     """ruamel data -> model JSON with anchor names and object-identity classes."""
     from ruamel.yaml.comments import CommentedMap, CommentedSeq, CommentedSet
@@ -119,7 +137,7 @@ def adoc(node, ids):
         if codec.anchor_of(node):
             raise codec.OutOfModel("anchored seq")
         return {"k": "seq", "i": [adoc(v, ids) for v in node]}
-    j = codec.scalar_to_json(node)
+    j = vj(node)
     a = codec.anchor_of(node)
     if a:
         j["a"] = a
@@ -141,6 +159,15 @@ def canon_oids(pair):
             j["o"] = m.setdefault(j["o"], len(m) + 1)
         return j
     return [go(pair[0]), go(pair[1])]
+
+
+def plain_json(node):
+    """Data of a document for the reload comparison (tags kept as text, anchors dropped)."""
+    if isinstance(node, dict):
+        return {"k": "map", "e": [[codec.key_to_json(k), plain_json(v)] for k, v in node.items()]}
+    if isinstance(node, list):
+        return {"k": "seq", "i": [plain_json(v) for v in node]}
+    return vj(node)
 
 
 def anchored_nodes(node, acc=None):
@@ -210,11 +237,11 @@ def run_case(case, log, drv_reqs, drv_ctx):
     for n, node, _i in rocc:
         ranch[n] = node
     common = [n for n in ranch if n in lanch]
-    conflicts = [n for n in common if not (lanch[n] == ranch[n])]
+    conflicts = [n for n in common if not veq(lanch[n], ranch[n])]
     rec["common"] = len(common)
     rec["conflicts"] = len(conflicts)
-    lvals = {n: codec.scalar_to_json(lanch[n]) for n in common}
-    rvals = {n: codec.scalar_to_json(ranch[n]) for n in common}
+    lvals = {n: vj(lanch[n]) for n in common}
+    rvals = {n: vj(ranch[n]) for n in common}
     r_ids = {n: {i for (m, _nd, i) in rocc if m == n} for n in conflicts}
     all_names = set(lanch) | set(ranch)
     merger = Merger(log, lhs, MergerConfig(log, SimpleNamespace(anchors=mode, arrays=arrays)))
@@ -241,15 +268,15 @@ def run_case(case, log, drv_reqs, drv_ctx):
     for n in conflicts:
         here = [(nd, i) for (m, nd, i) in res if m == n]
         if mode == "left":
-            bad = [nd for nd, _i in here if codec.scalar_to_json(nd) != lvals[n]]
+            bad = [nd for nd, _i in here if vj(nd) != lvals[n]]
             if bad:
                 rec["viol"].append(("left-not-left", "anchors=left: a node named %s reads %r, not the left value" % (n, bad[0])))
         elif mode == "right":
-            bad = [nd for nd, _i in here if codec.scalar_to_json(nd) != rvals[n]]
+            bad = [nd for nd, _i in here if vj(nd) != rvals[n]]
             if bad:
                 rec["viol"].append(("right-not-right", "anchors=right: a node named %s reads %r, not the right value" % (n, bad[0])))
         elif mode == "rename":
-            bad = [nd for nd, _i in here if codec.scalar_to_json(nd) != lvals[n]]
+            bad = [nd for nd, _i in here if vj(nd) != lvals[n]]
             if bad:
                 rec["viol"].append(("rename-left-changed", "anchors=rename: a node named %s no longer reads the left value" % n))
             newnames = {m for (m, _nd, i) in res if i in r_ids[n]}
@@ -258,7 +285,7 @@ def run_case(case, log, drv_reqs, drv_ctx):
             if newnames & all_names:
                 rec["viol"].append(("rename-collides", "right-hand %s renamed to an existing name %s" % (n, sorted(newnames & all_names))))
             for (m, nd, i) in res:
-                if i in r_ids[n] and codec.scalar_to_json(nd) != rvals[n]:
+                if i in r_ids[n] and vj(nd) != rvals[n]:
                     rec["viol"].append(("rename-right-changed", "renamed right-hand %s lost its value" % n))
     # serialisation: no duplicate anchor, strict reload gives the same data
     try:
@@ -279,7 +306,7 @@ def run_case(case, log, drv_reqs, drv_ctx):
         d2, ok = Parsers.get_yaml_data(y2, log, text, literal=True)
         if not ok:
             rec["viol"].append(("reload-fails", "the merged document does not reload: %r" % text))
-        elif codec.node_to_json(d2) != codec.node_to_json(merger.data):
+        elif plain_json(d2) != plain_json(merger.data):
             rec["viol"].append(("reload-differs", "the merged document reloads to different data: %r" % text))
     return rec
 
